@@ -178,6 +178,10 @@ func (r *c18Run) checkSource(i int, layout bool) bool {
 	}
 	if layout {
 		d, err := r.src.CheckLayout(c18Shard, st.Files)
+		if fm, ok := err.(*c18kit.FileMissingError); ok {
+			r.mismatch("source-changed:file-missing", fm.Error(), i)
+			return false
+		}
 		if err != nil {
 			r.infra(i, "layout: %v", err)
 			return false
